@@ -21,9 +21,9 @@ RULE = ("fault enumeration: directory trees of 2-8 generated stylesheets in 1-3 
 ASSUMPTIONS = ["the command run on one file alone in a pristine copy of the tree is the reference for that file's output (differential)",
                "unreadable-by-permission files are not generated: the sandbox runs as root, which ignores mode bits"]
 MUST_OBSERVE = {"any": ["trees_judged", "dir_vs_single_compared", "reruns_compared", "faults_injected", "fault_reported_on_stderr"]}
-SIZES = {"quick": 3, "thorough": 30}
+SIZES = {"quick": 4, "thorough": 32}
 SHARD_TIMEOUT = {"quick": 900, "thorough": 7200}
-FAULTS = ["non-utf8", "dir-named-css", "dangling-symlink", "unserialisable", "empty", "orphan-cm", "stale-output", "none"]
+FAULTS = ["non-utf8", "dir-named-css", "dangling-symlink", "unserialisable", "empty", "orphan-cm", "stale-output", "blocked-output", "none"]
 PLACEMENTS = [("first", "root"), ("middle", "root"), ("last", "root"), ("first", "sub"), ("middle", "sub"), ("last", "sub")]
 
 
@@ -57,6 +57,8 @@ def build_tree(rnd, root, fault, placement, st):
             text = f":root {{ {shared_var}: rgb({grey}, {grey}, {grey}); --only-in-{k}: #7a7a7a; }}\n" + text
         text += f"\n.x{k}a {{ color: var({shared_var}); }}\n.x{k}b {{ color: var(--only-in-{(k + 1) % n}, #6f7780); background-color: #ffffff }}\n"
         text += f".x{k}c {{ color: var(--chain{k}); }}\n:root {{ --chain{k}: var(--only-in-{(k + 2) % n}); }}\n"
+        # a direct colour on a background that only another file defines: alone the pair is unresolvable and stays as it is
+        text += f".x{k}e {{ color: #777777; background-color: var(--surface-{(k + 1) % n}) }}\n.x{k}f {{ color: #8c8c8c; background-color: var(--surface-any, var(--surface-{k})) }}\n"
         # the same failing pairs in every file, each file in its own notation (an answer remembered per colour pair
         # instead of per declaration carries one file's notation into another's output)
         tn = ["#777777", "rgb(119, 119, 119)", "hsl(0, 0%, 46.67%)", "#777", "RGB(119,119,119)", "#777777"][k % 6]
@@ -109,6 +111,18 @@ def build_tree(rnd, root, fault, placement, st):
         with open(p, "w") as f:
             # a top-level :root rule is always re-serialised; the error node in it makes tinycss2.serialize raise
             f.write(":root { --v: #123456; *zoom: 1 }\n.h { color: #777; background-color: #fff; *zoom: 1 }\n.ok { color: #000 }\n")
+    elif fault == "blocked-output":
+        # a valid stylesheet that defines the properties other files reference, but whose output cannot be written
+        # (a directory sits at its output path): it fails *after* it has been read and analysed
+        p = os.path.join(root, rel)
+        os.makedirs(os.path.dirname(p), exist_ok=True)
+        defs = "; ".join([f"--only-in-{j}: #{(30 + 20 * j) % 256:02x}{(40 + 10 * j) % 256:02x}50" for j in range(10)] + ["--shared: #0a0a0a", "--surface-any: #fefefe"]
+                         + [f"--surface-{j}: #ffffff" for j in range(10)])
+        with open(p, "w") as f:
+            f.write(f":root {{ {defs} }}\n.blk {{ color: #777777; background-color: #ffffff }}\n")
+        os.makedirs(os.path.join(root, rel[:-4] + "_cm.css"), exist_ok=True)
+        with open(os.path.join(root, rel[:-4] + "_cm.css", "keep.txt"), "w") as f:
+            f.write("x")
     elif fault == "empty":
         p = os.path.join(root, rel)
         os.makedirs(os.path.dirname(p), exist_ok=True)
@@ -174,6 +188,8 @@ def judge_tree(rec, scratch, ti, pristine, sheets, faulty, orphans, fault, place
             rec.violation(f"faulty file {rel} ({fault}) is not reported on stderr; stderr tail {err[-200:]!r}", case)
         if rel[:-4] + "_cm.css" in first:
             rec.violation(f"faulty file {rel} ({fault}) produced an output", case)
+        if fault == "blocked-output" and clirun.snapshot(os.path.join(work_dir, rel[:-4] + "_cm.css")) != {"keep.txt": clirun.snapshot(os.path.join(pristine, rel[:-4] + "_cm.css"))["keep.txt"]}:
+            rec.violation(f"the directory at the blocked output path {rel[:-4]}_cm.css was altered", case)
     for rel in orphans:
         if first.get(rel) != pre_outputs.get(rel):
             rec.violation(f"pre-existing {rel} was modified by a directory run (it is an output name, never an input)", case)
